@@ -68,6 +68,8 @@ CallRes Ctx::call(fn2 f, int64_t a, int64_t b)
   CallRes r{ 0, 0 };
   ++st.evaluations;
   struct Rec { Ctx & c; CallRes & r; ~Rec() { if(c.sampling && c.cur_results.size() < 12) c.cur_results.push_back(r.sig ? INT64_MIN : r.v); } } rec{ *this, r };
+  int prev_mode = 0;
+  if(fe_mode) { prev_mode = std::fegetround(); std::fesetround(fe_mode); }
   int s = sigsetjmp(t_jb, 0);
   if(s == 0)
     {
@@ -80,8 +82,14 @@ CallRes Ctx::call(fn2 f, int64_t a, int64_t b)
     r.sig = s;
     ++st.signals;
     }
+  if(fe_mode) std::fesetround(prev_mode);
   if(call_hook) { in_hook = true; call_hook(*this, f, a, b, r); in_hook = false; }
   return r;
+  }
+static const char * fe_name(int m)
+  {
+  switch(m) { case FE_DOWNWARD: return "FE_DOWNWARD"; case FE_UPWARD: return "FE_UPWARD"; case FE_TOWARDZERO: return "FE_TOWARDZERO"; }
+  return "FE_TONEAREST";
   }
 static const char * signame(int s)
   {
@@ -102,6 +110,7 @@ void Ctx::violation(const std::string & key, int ci, int64_t a, int64_t b, int64
   if(vc.wit.size() < 6)
     {
     Violation v; v.key = key; v.check = cur_check; v.cfg = cn; v.a = a; v.b = b; v.c = c; v.observed = observed; v.expected = expected;
+    if(fe_mode) v.observed += std::string(" [library call made under std::fesetround(") + fe_name(fe_mode) + ")]";
     vc.wit.push_back(v);
     }
   }
@@ -249,6 +258,11 @@ int main(int argc, char ** argv)
   Property * prop = nullptr;
   for(auto p : registry()) if(pid == p->id) prop = p;
   if(!prop) harness_fail("unknown property " + pid);
+  // properties whose checks do not involve floating point at all (or only in checks marked fp_env): the caller's rounding
+  // direction must not influence any result
+  bool fe_pass = false;
+  for(const char * q : { "C01", "C02", "C03", "C04", "C06", "C07", "C09", "C10", "C11", "C15", "C16", "C17", "C18", "C19", "C20" }) if(pid == q) fe_pass = true;
+  if(getenv("VERIF_NO_FE_PASS")) fe_pass = false;
   install_guard();
   prop->init();
   auto t0 = std::chrono::steady_clock::now();
@@ -270,7 +284,22 @@ int main(int argc, char ** argv)
     for(int i = 0; i < nthreads; ++i)
       {
       Ctx & c = ctx[(size_t)i]; if(thorough) c.nontrivial_cap = 1u << 21; c.shard = i; c.nshards = nthreads; c.thorough = thorough; c.seed = seed; c.scale = scale; c.prop = prop; c.rng.seed(seed, (uint64_t)i + 1000 * strhash(prop->id) % 1000003);
-      th.emplace_back([&c, prop] { prop->run(c); });
+      th.emplace_back([&c, prop, fe_pass]
+        {
+        prop->run(c);
+        if(!fe_pass) return;
+        // floating-point environment pass: the same workload, thinned, with every library call made under a directed
+        // rounding mode; the property's checks (except those marked fp_env) must hold unchanged
+        double scale0 = c.scale;
+        for(int mode : { FE_UPWARD, FE_DOWNWARD, FE_TOWARDZERO })
+          {
+          uint64_t e0 = c.st.evaluations;
+          c.fe_mode = mode; c.scale = scale0 * 0.125;
+          prop->run(c);
+          c.fe_mode = 0; c.scale = scale0;
+          c.st.strata[std::string("library-calls-under-") + fe_name(mode)] += c.st.evaluations - e0;
+          }
+        });
       }
     for(auto & t : th) t.join();
     for(auto & c : ctx) total.merge(c.st);
